@@ -133,7 +133,21 @@ Ltac goal_cases :=
          | |- context [match fsm ?s with _ => _ end] => let E := fresh "Ef" in destruct (fsm s) eqn:E
          | |- context [if fix_c09 ?P then _ else _] => let E := fresh "Efx" in destruct (fix_c09 P) eqn:E
          | |- context [if fix_stale ?P then _ else _] => let E := fresh "Efs" in destruct (fix_stale P) eqn:E
+         | |- context [if ever ?c ?s && negb (active ?c ?s) && fix_lc ?P then _ else _] =>
+           let E := fresh "Erl" in destruct (ever c s && negb (active c s) && fix_lc P) eqn:E
          end; cbn.
+
+Lemma release_child c w : w_child (release_worker c w) = w_child w.
+Proof. unfold release_worker. destruct (w_pc w); auto. destruct (N.eqb (w_child w) c); auto. Qed.
+
+Lemma release_owner c w : w_owner (release_worker c w) = w_owner w.
+Proof. unfold release_worker. destruct (w_pc w); auto. destruct (N.eqb (w_child w) c); auto. Qed.
+
+Lemma release_wdone c w : wdone (release_worker c w) = wdone w.
+Proof.
+  unfold release_worker, wdone. destruct (w_pc w) eqn:E; rewrite ?E; auto.
+  destruct (N.eqb (w_child w) c); cbn; rewrite ?E; auto.
+Qed.
 
 Ltac split_all := repeat match goal with |- _ /\ _ => split end.
 
